@@ -470,6 +470,10 @@ class StmtGen(Gen):
             to_e = mk(to)
             if ty == Z and r.random() < 0.3:
                 to_e = Un("laenge", self.expr(L(Z), 1), Z)
+            elif ty == Z and r.random() < 0.3:
+                # a Zahl counter against a Kommazahl end value that is not integral: compared as Kommazahlen (not truncated)
+                to_e = Lit(K, float(to) + r.choice([0.5, -0.5, 0.25, -0.75]))
+                self.cells.add(("stmt", "forcount-Zahl-counter-Kommazahl-end", 0))
             return [ForCount(v, ty, mk(frm), to_e, None if step is None else mk(step), body)]
         if k == "foreach":
             v = self.fresh("e")
